@@ -37,6 +37,22 @@ func (i *syntaxChildMultiIdentifier) retrieve(
 	}
 }
 
+func (i *syntaxChildMultiIdentifier) setNext(next syntaxNode) {
+	if i.next != nil {
+		// The continuation is shared by all inner identifiers: append to it once.
+		i.next.setNext(next)
+		return
+	}
+
+	for _, identifier := range i.identifiers {
+		identifier.setNext(next)
+	}
+	if i.isAllWildcard {
+		i.unionQualifier.setNext(next)
+	}
+	i.next = next
+}
+
 func (i *syntaxChildMultiIdentifier) retrieveMap(
 	root interface{}, srcMap map[string]interface{}, container *bufferContainer) errorRuntime {
 
